@@ -409,9 +409,190 @@ def _depends_on_inputs(ex, v):
     return False
 
 
+def det_case(H, ex, case):
+    """C07 (binary half): the bytes written are a function of the logical content alone.  A DOM with concrete names, classes and
+    property values is serialized under (a) symbolic Ref values, (b) every iteration order of the hash-based containers involved
+    (instances map, per-instance property map: `order_mode = perm` forks over all orders) and (c) the property insertion order
+    given by the case; every path must produce the same concrete bytes (compared across paths and across the cases of one group
+    through `case['group_state']`), and write -> read -> write must reproduce them (fixed point)."""
+    A = Atoms(ex)
+    shape, classes = list(case['shape']), list(case['classes'])
+    n = len(shape) - 1
+    props = [[]]
+    for i in range(1, n + 1):
+        pl = []
+        given = list(case['props'].get(i, []))
+        if case.get('permute_props') and len(given) > 1:
+            import itertools
+            perms = list(itertools.permutations(given))
+            given = list(perms[ex.nondet(len(perms), 'property insertion order of node %d' % i)])
+        for pn, kind, nums in given:
+            pl.append((pn.encode(), H.const_value(kind, nums)))
+        props.append(pl)
+    dom, refs = build_dom(H, ex, A, shape, classes, props)
+    db = H.database(case.get('db'))
+    ser = H.S('Serializer', database=Ptr(Cell(db)), compression=Enum('CompressionType', 'None'))
+    roots_idx = [i for i in range(1, n + 1) if shape[i] == 0]
+
+    def write(d, root_refs):
+        out = VecM([])
+        roots = ArrayV(list(root_refs))
+        try:
+            res = ex.force(ex.call_fn(H.F_SER, [Ptr(Cell(ser)), Ptr(Cell(out)), Ptr(Cell(d)), SliceRef(Ptr(Cell(roots)), 0, len(root_refs))]))
+        except PanicPath as p:
+            raise Violation('C07.panic[det]: Serializer::serialize panics: %s at %s' % (p.msg, p.site))
+        if res.variant != 'Ok':
+            raise Violation('C07.reject[det]: Serializer::serialize fails on a plain DOM')
+        try:
+            return conc(out.items, 'output')
+        except Violation:
+            raise Violation('C07.det[depends_on_refs]: the written bytes depend on the Ref values of the instances (not determined by the logical content)')
+    first = write(dom, [ref_val(refs[i]) for i in roots_idx])
+    st = case.setdefault('group_state', {})
+    key = case.get('content_key', 'k')
+    if key in st and st[key] != first:
+        raise Violation('C07.det[order]: the same logical tree is written as different bytes under another hash-iteration / insertion order (first difference at offset %d)' % next(i for i, (a, b) in enumerate(zip(first, st[key])) if a != b) if len(first) == len(st[key]) else 'C07.det[order]: the same logical tree is written with a different length under another order')
+    st.setdefault(key, first)
+    ex.det_bytes = first
+    # fixed point: load what was written, save again
+    de = H.deserializer(db)
+    try:
+        r2 = ex.force(ex.call_fn(H.F_DESER, [Ptr(Cell(de)), Ptr(Cell(iomodels.CursorV([mk_int(b, 'u8') for b in first])))]))
+    except PanicPath as p:
+        raise Violation('C07.panic[det_read]: reading back panics: %s' % p.msg)
+    if r2.variant != 'Ok':
+        raise Violation('C07.reject[det_read]: the written file is rejected by the reader')
+    dom2 = r2.f[0]
+    root2 = dom2.f[H.DH.W['root_ref']]
+    insts2 = dom2.f[H.DH.W['instances']]
+    rootinst = None
+    for k_, c_ in insts2.entries:
+        if A.canon(k_) == A.canon(root2):
+            rootinst = c_.v
+    kids2 = list(rootinst.f[H.DH.I['children']].items)
+    second = write(dom2, kids2)
+    if second != first:
+        raise Violation('C07.det[resave]: saving the loaded file again gives different bytes (load/save is not a fixed point)')
+    return 'ok'
+
+
+def sstr_case(H, ex, case):
+    """SharedString columns and the SSTR chunk.  case['insts'] = [{prop name: content length}] (contents symbolic bytes); a property
+    an instance lacks is filled with the default (the empty SharedString for an unknown class)."""
+    A = Atoms(ex)
+    insts = case['insts']
+    n = len(insts)
+    pnames = sorted({p for d_ in insts for p in d_})
+    contents = {}
+    props = [[]]
+    for i, d_ in enumerate(insts):
+        pl = []
+        for pn, ln in d_.items():
+            c = [sym_int('s%d_%s_%d' % (i, pn, j), 'u8') for j in range(ln)]
+            contents[(i, pn)] = c
+            pl.append((pn.encode(), Enum('Variant', 'SharedString', [ex.models.ss_make(ex, c)])))
+        props.append(pl)
+    # which contents coincide is part of the case split (the SSTR layout legitimately depends on it)
+    import itertools as _it
+    for (ka, a), (kb, b) in _it.combinations(sorted(contents.items()), 2):
+        if len(a) == len(b) and a:
+            ex.branch(z3.And([x.t == y.t for x, y in zip(a, b)]))
+    for i in range(n):
+        for pn in pnames:
+            contents.setdefault((i, pn), [])             # default: empty shared string
+    dom, refs = build_dom(H, ex, A, [-1] + [0] * n, ['DataModel'] + ['A'] * n, props)
+    db = H.database(None)
+    ser = H.S('Serializer', database=Ptr(Cell(db)), compression=Enum('CompressionType', 'None'))
+    out = VecM([])
+    roots = ArrayV([ref_val(r) for r in refs[1:]])
+    try:
+        res = ex.force(ex.call_fn(H.F_SER, [Ptr(Cell(ser)), Ptr(Cell(out)), Ptr(Cell(dom)), SliceRef(Ptr(Cell(roots)), 0, n)]))
+    except PanicPath as p:
+        raise Violation('C03.panic[sstr:%s]: Serializer::serialize panics on SharedString properties: %s at %s' % (str(getattr(p, 'where', '?')).replace(' ', '_'), p.msg, p.site))
+    if res.variant != 'Ok':
+        raise Violation('C01.reject[sstr]: Serializer::serialize fails on SharedString properties')
+    data = out.items
+    ex.input_bytes = data
+    ex.sstr_case = dict(contents=contents, pnames=pnames)
+
+    def c03_part():
+        ntypes, ninst, chunks = parse_file(data)
+        names = [c[0] for c in chunks]
+        if names.count(b'SSTR') != 1:
+            raise Violation('C03.struct[sstr]: %d SSTR chunks in a file with SharedString values' % names.count(b'SSTR'))
+        if b'INST' in names and names.index(b'SSTR') > names.index(b'INST'):
+            raise Violation('C03.struct[sstr]: the SSTR chunk comes after an INST chunk')
+        body = chunks[names.index(b'SSTR')][1]
+        if u32(body[0:4], 'SSTR version') != 0:
+            raise Violation('C03.struct[sstr]: SSTR version is not 0')
+        cnt = u32(body[4:8], 'SSTR count')
+        pos, entries = 8, []
+        for _ in range(cnt):
+            sv, pos2 = read_string(body, pos + 16, 'shared string')
+            entries.append(sv)
+            pos = pos2
+        if pos != len(body):
+            raise Violation('C03.struct[sstr]: SSTR chunk has %d bytes after its %d entries' % (len(body) - pos, cnt))
+        eq = lambda a, b: (z3.And([x.t == y.t for x, y in zip(a, b)]) if a else z3.BoolVal(True)) if len(a) == len(b) else z3.BoolVal(False)
+        import itertools
+        for (ia, a), (ib, b) in itertools.combinations(enumerate(entries), 2):
+            if ex.sat(eq(a, b)):
+                ex.assume(eq(a, b))
+                raise Violation('C03.struct[sstr_dup]: SSTR entries %d and %d can hold the same string (each distinct SharedString is stored once)' % (ia, ib))
+        # (an unused extra entry - the writer always registers a column's default value - is not excluded by the property)
+        cols = {}
+        for nm, b in chunks:
+            if nm == b'PROP':
+                pn, q = read_string(b, 4, 'property name')
+                cols[conc(pn, 'property name').decode()] = (conc(b[q:q + 1], 'type id')[0], b[q + 1:])
+        for pn in pnames:
+            if pn not in cols:
+                raise Violation('C03.struct[prop]: no PROP chunk for %s' % pn)
+            tid, vb = cols[pn]
+            if tid != 0x1c or len(vb) != 4 * n:
+                raise Violation('C03.prop[ser_SharedString]: column %s has type id 0x%02x / %d bytes for %d instances' % (pn, tid, len(vb), n))
+            raw = conc(vb, 'SharedString indices')
+            for i in range(n):
+                idx = int.from_bytes(bytes(raw[i + n * j] for j in range(4)), 'big')
+                if idx >= cnt:
+                    raise Violation('C03.prop[ser_SharedString]: instance %d of column %s refers to SSTR entry %d of %d' % (i, pn, idx, cnt))
+                if ex.sat(z3.Not(eq(entries[idx], contents[(i, pn)]))):
+                    raise Violation('C03.prop[ser_SharedString]: instance %d of column %s points at an SSTR entry with another content' % (i, pn))
+    _guarded(case, c03_part)
+    if case.get('prop') == 'C03':
+        return 'ok'
+    de = H.deserializer(db)
+    try:
+        r2 = ex.force(ex.call_fn(H.F_DESER, [Ptr(Cell(de)), Ptr(Cell(iomodels.CursorV(data)))]))
+    except PanicPath as p:
+        raise Violation('C01.panic[rt_sstr]: reading back panics: %s at %s' % (p.msg, p.site))
+    if r2.variant != 'Ok':
+        raise Violation('C01.reject[rt_sstr]: the written file is rejected by the reader')
+    d = H.DH.snapshot(ex, A, r2.f[0])
+    kids = d.nodes[d.root]['children']
+    if len(kids) != n:
+        raise Violation('C01.tree: %d instances read back, %d written' % (len(kids), n))
+    for i, k in enumerate(kids):
+        pr = {pk.concrete_bytes().decode(): pv for pk, pv in d.nodes[k]['props']}
+        if set(pr) != set(pnames):
+            raise Violation('C01.prop[rt_SharedString]: instance %d comes back with properties %s' % (i, sorted(pr)))
+        for pn in pnames:
+            got = pr[pn]
+            if got.variant != 'SharedString':
+                raise Violation('C01.prop[rt_SharedString]: %s of instance %d comes back as Variant::%s' % (pn, i, got.variant))
+            gc, want = got.f[0].f[0].items, contents[(i, pn)]
+            if len(gc) != len(want) or (want and ex.sat(z3.Or([x.t != y.t for x, y in zip(gc, want)]))):
+                raise Violation('C01.prop[rt_SharedString]: content of %s of instance %d changes through write + read' % (pn, i))
+    return 'ok'
+
+
 def run_case(H, ex, case):
     what = case['what']
     _EX[0] = ex
+    if what == 'sstr':
+        return sstr_case(H, ex, case)
+    if what == 'det':
+        return det_case(H, ex, case)
     if what == 'cols':
         return cols_case(H, ex, case)
     if what == 'sertree':
@@ -433,6 +614,10 @@ def run_case(H, ex, case):
     if kind == 'BrickColor':
         for v, num in zip(vals, opts['numbers']):
             ex.assume(v['v'] == num)
+    if kind == 'Font':
+        for v in vals:
+            for fld in ('fam', 'face'):
+                ex.assume(z3.And(z3.UGE(v[fld], 0x20), z3.ULT(v[fld], 0x7f)))
     if kind == 'CFrame':
         # general matrices only (rotation id 0): entries away from the 24 basic rotations (|x| >= 2), the snap is K4's subject
         opts['rot'] = [0] * n
@@ -586,6 +771,7 @@ def explore(prog, case, stats=None, max_paths=20000, budget_s=600, max_viol=4, m
     H = SerHarness(prog)
     stats = stats or Stats()
     M = models or Bc.make_models(prog)
+    M.order_mode = case.get('order_mode', 'insertion')
     res = dict(paths=0, ok=0, err=0, infeasible=0, violations=[], unsupported=None)
     work, seen, t0 = [[]], set(), time.time()
     while work:
@@ -667,6 +853,8 @@ def value_json(kind, v, opts, i, ev):
         return kind, [g('t', 'v', 'e')] * opts['len'][i]
     if kind == 'ColorSequence':
         return kind, [g('t', 'r', 'g', 'b')] * opts['len'][i]
+    if kind == 'Font':
+        return kind, [opts['weight'][i], opts['style'][i], [ev(v['fam'])], ([ev(v['face'])] if opts['face'][i] else None)]
     if kind == 'CFrame':
         return kind, g('px', 'py', 'pz', *['m%d' % j for j in range(9)])
     raise Unsupported('replay value for ' + kind)
@@ -680,6 +868,8 @@ def confirm(H, ex, case, label):
     from .. import common as C, gen
     if case['what'] == 'cols':
         return confirm_cols(H, ex, case, label)
+    if case['what'] == 'sstr':
+        return confirm_sstr(H, ex, case, label)
     if ex.solver.check() != z3.sat or not getattr(ex, 'ser_case', None):
         return False, None, 'no model / case state for a replay'
     m = ex.solver.model()
@@ -784,4 +974,51 @@ def confirm_cols(H, ex, case, label):
                     bad.append('%s of instance %d is %s, expected %s' % (cname, i + 1, json.dumps(got[i][cname]), json.dumps(want)))
         ok, detail = bool(bad), 'native: ' + ('; '.join(bad)[:300] if bad else 'all values as expected')
     json.dump(dict(property='C08', label=label, input=spec, native=out[-1200:], confirmed=ok, detail=detail, how='tools/replayer bytes binary-encode %s' % inp), open(path, 'w'), indent=1)
+    return ok, path, detail
+
+
+def confirm_sstr(H, ex, case, label):
+    import hashlib
+    from .. import common as C, gen
+    if ex.solver.check() != z3.sat or not getattr(ex, 'sstr_case', None):
+        return False, None, 'no model / case state for a replay'
+    m = ex.solver.model()
+    cont = ex.sstr_case['contents']
+    ev = lambda bs: [m.eval(b.t, model_completion=True).as_long() for b in bs]
+    spec = {'class': 'A', 'db': {}, 'instances': [[[pn, 'SharedString', {'bytes': ev(cont[(i, pn)])}] for pn in d_] for i, d_ in enumerate(case['insts'])]}
+    os.makedirs(C.REPLAYS, exist_ok=True)
+    tag = hashlib.sha256(json.dumps(spec, sort_keys=True).encode()).hexdigest()[:10]
+    inp = os.path.join(C.REPLAYS, '%s_sstr_%s.input.json' % (label.split('.')[0], tag))
+    json.dump(spec, open(inp, 'w'))
+    rc, out, _ = C.run([gen.tool('replayer'), 'bytes', 'binary-encode', inp], timeout=60)
+    path = os.path.join(C.REPLAYS, '%s_sstr_%s.json' % (label.split('.')[0], tag))
+    try:
+        r = json.loads(out.strip().split('\n')[-1]) if 'PANIC' not in out else None
+    except Exception:
+        r = None
+    ok, detail = False, 'native: ' + out.strip()[-200:]
+    if 'panic' in label:
+        ok = 'PANIC' in out
+    elif 'reject' in label:
+        ok = r is not None and ('write_err' in r or 'read_err' in r)
+    elif r is not None and 'file' in r and label.startswith('C03'):
+        data = [mk_int(b, 'u8') for b in bytes.fromhex(r['file'])]
+        try:
+            _, _, chunks = parse_file(data)
+            ents = []
+            for nm, body in chunks:
+                if nm == b'SSTR':
+                    cnt, pos = u32(body[4:8], 'count'), 8
+                    for _ in range(cnt):
+                        sv, pos = read_string(body, pos + 16, 'entry')
+                        ents.append(conc(sv, 'entry'))
+            ok = len(set(ents)) != len(ents) if 'dup' in label else True
+            detail = 'native file: SSTR entries %s' % [e.hex() for e in ents]
+        except Violation as v_:
+            ok, detail = True, 'native file is structurally broken: ' + v_.label
+    elif r is not None and 'decoded' in r:
+        want = [{pn: {'SharedString': ev(cont[(i, pn)])} for pn in ex.sstr_case['pnames']} for i in range(len(case['insts']))]
+        got = [dict(map(tuple, x['props'])) for x in r['decoded'][1:]]
+        ok, detail = got != want, 'native: read back %s, written %s' % (json.dumps(got)[:150], json.dumps(want)[:150])
+    json.dump(dict(property=label.split('.')[0], label=label, input=spec, native=out[-1200:], confirmed=ok, detail=detail, how='tools/replayer bytes binary-encode %s' % inp), open(path, 'w'), indent=1)
     return ok, path, detail
